@@ -95,7 +95,7 @@ void body(const xcfg &c, int tier)
   snprintf(script, sizeof script, x_scripts[c.script], c.size, c.size);
   memset(&vk_cfg, 0, sizeof vk_cfg);
   vk_cfg.sched_on = 1;
-  vk_cfg.sched_bound = tier ? 2 : 1;
+  vk_cfg.sched_bound = tier && c.size <= 1 ? 2 : 1;
   vk_cfg.vlimit = 24;
   vk_cfg.hello_lite = 1;
   if (c.deadline) { vk_cfg.elapsed_inf_n = 2; vk_cfg.elapsed_inf[0] = 0; vk_cfg.elapsed_inf[1] = 5; }
